@@ -101,9 +101,10 @@ def rule_tags(c, prog):
     c.sample({"rule": R, "read_tags": read_tags, "written": written})
 
 
-def rule_float(c, prog):
-    R = "C02.float"
-    c.rule(R, "float_type!: the special spellings written (INF, -INF, NAN) are exactly the literals matched on read, guarded by the matching predicates; the fall-through is Display -> str::parse on the same primitive type with no format spec")
+def rule_float(c, prog, R="C02.float", foreign=False):
+    """foreign=True (C05, reader direction): every other text goes to str::parse unfiltered — whatever spelling another
+    writer chose (`1e+10`, `+1.5`, `.5`) is read.  foreign=False (C02): the text the own writer produces reaches parse."""
+    c.rule(R, "float_type!: the special spellings written (INF, -INF, NAN) are exactly the literals matched on read, guarded by the matching predicates; the fall-through is Display -> str::parse on the same primitive type with no format spec" + (" and no filter in front of it" if foreign else ""))
     for ty, name in (("f32", "float"), ("f64", "double")):
         w = prog.impl_fn(XT, ty, "write_xml")
         r = prog.impl_fn(XT, ty, "read_xml")
@@ -128,7 +129,11 @@ def rule_float(c, prog):
             elif "is_nan" in k:
                 want_w["nan"] = v
             else:
-                want_w["other"] = v
+                want_w.setdefault("other-all", []).append(v)
+        # every path that is not one of the three specials writes the value itself (a fast path that writes a cast or a
+        # rounded value is another `other` branch, not a replacement of the last one)
+        others = want_w.pop("other-all", [])
+        want_w["other"] = "self" if others and all(o == "self" for o in others) else (sorted(set(str(o) for o in others if o != "self"))[0] if others else None)
         rm = tables.top_match(r)
         rt = {}
         for arm in rm["arms"]:
@@ -137,7 +142,15 @@ def rule_float(c, prog):
                 if alt[0] == "lit":
                     rt[alt[1]] = vname(b.get("def", "")) if b.get("k") == "Path" else core.fingerprint(b, 3)
                 else:
-                    rt["_"] = core.fingerprint(b, 4)
+                    fp_ = core.fingerprint(b, 4)
+                    if "parse" not in fp_ and any(x.get("k") == "MethodCall" and x["m"] == "parse" for x in core.walk(arm["body"])):
+                        fp_ = "parse…" + fp_
+                    if "guard" in arm:
+                        if foreign:
+                            fp_ = "filtered(" + core.fingerprint(arm["guard"], 3) + ") " + fp_.replace("parse", "p-a-r-s-e")
+                        rt.setdefault("_", fp_)
+                    elif "parse" in fp_ or "_" not in rt:
+                        rt["_"] = fp_
         c.sample({"rule": R, "type": ty, "write": want_w, "read": rt})
         inst = f"{ty}:specials"
         ok = (want_w.get("+inf") == "'INF'" and want_w.get("-inf") == "'-INF'" and want_w.get("nan") == "'NAN'"
@@ -150,7 +163,7 @@ def rule_float(c, prog):
         if want_w.get("other") == "self" and "parse" in (rt.get("_") or ""):
             c.ok(R, inst)
         else:
-            c.violation(R, f"{ty}|fallthrough", f"{ty}: finite values must be written with plain Display (`write_characters(self)`) and read with `parse()`; got write {want_w.get('other')} / read {rt.get('_')}", w.sp, instance=inst)
+            c.violation(R, f"{ty}|fallthrough", f"{ty}: finite values must be written with plain Display (`write_characters(self)`) and read with `parse()`; got write {want_w.get('other')} / read {str(rt.get('_')).replace('p-a-r-s-e', 'parse')}", w.sp, instance=inst)
         tagv = common.const_value(prog, [it["path"] for imp in prog.impls if imp.get("trait") == XT and imp["self"] == ty for it in imp["items"] if it["name"] == "XML_TAG_NAME"][0])
         if tagv == name:
             c.ok(R, f"{ty}:tag")
